@@ -34,6 +34,11 @@ def check(ctx):
                "the search starts at the resource's nearest availability on/after the release date and steps exactly +1 day")
     ctx.guarded(o, lambda o: sched_dep.search_monotone(ctx, o, S))
 
+    o = ctx.ob('search_examines_every_day', 'R8',
+               "the day the search examines first depends only on the release date and the resource's calendar: it is not moved "
+               "forward by remembered state (a 'first free day' hint kept on the ledger or the scheduler)", floor=1)
+    ctx.guarded(o, lambda o: search_from_release(ctx, o, S))
+
     # the schedulers start their search at IResource.get_nearest_availability_date: its shape is C17's obligation, reused here
     from . import c17 as _c17
     _c17._search(ctx)
@@ -65,6 +70,11 @@ def check(ctx):
                "days look free for a mid-day release date)", floor=2)
     ctx.guarded(o, lambda o: ledger_shape(ctx, o))
 
+    o = ctx.ob('ledger_is_fresh', 'R9',
+               "every calc() starts from an empty ledger: the ledger's row list is allocated per ledger object (no shared mutable "
+               "default), and calc hands a ledger constructed by this call to the pass (stale bookings leave unforced idle days)", floor=2)
+    ctx.guarded(o, lambda o: sched_fill.ledger_fresh(ctx, o, S))
+
     o = ctx.ob('linked_tasks_get_project_bound', 'R8',
                "predecessors reached through a dependency link are scheduled with the project start as bound, not with the bound of "
                "the visiting task (which would delay unrelated tasks)")
@@ -89,9 +99,30 @@ def order(ctx, o, ps: PassShape, pt):
         if fo is None:
             o.undecided(calc, c, c, "pass call outside a loop over the roots")
             continue
-        it = ex.expand(fo.iter, cfg_of(calc).node_of(fo))
+        ccfg = cfg_of(calc)
+        it = ex.expand(fo.iter, ccfg.node_of(fo))
+        for _ in range(2):
+            mm = match("list($x)", it) or match("tuple($x)", it) or match("[$v for $v in $x]", it)
+            if mm:
+                it = mm['x']
         m = match("$w.roots", it)
-        if m and isinstance(c.args[0], ast.Name) and isinstance(fo.target, ast.Name) and c.args[0].id == fo.target.id:
+        loop_var_is_arg = isinstance(c.args[0], ast.Name) and isinstance(fo.target, ast.Name) and c.args[0].id == fo.target.id
+        inside = [(t, pol) for t, pol in ccfg.conditions(ccfg.node_containing(c)) if any(x is t for st in fo.body for x in ast.walk(st))]
+        comp_filter = facts.comp_parts(ex.expand(fo.iter, ccfg.node_of(fo)))
+        if comp_filter and comp_filter[3] and (match("$w.roots", comp_filter[2]) or match("$w.tasks", comp_filter[2])):
+            inside = inside + [(t, True) for t in comp_filter[3]]
+            it = comp_filter[2]
+            m = match("$w.roots", it)
+        # a redundant memo test hoisted to the call site (`if t.id in calculated: continue`) changes nothing
+        inside = [(t, pol) for t, pol in inside if not (match("$t.id in $m", t) and not pol) and not (match("$t.id not in $m", t) and pol)]
+        n_calls = len(facts.calls_named(calc, pname))
+        if (m or match("$w.tasks", it) or match("$w.all_children", it)) and loop_var_is_arg and inside and n_calls < 2:
+            o.undecided(calc, fo, fo, "the only scheduling loop of calc is conditional: " + ', '.join(facts.cond_texts(inside))[:120])
+        elif (m or match("$w.tasks", it) or match("$w.all_children", it)) and loop_var_is_arg and inside:
+            o.refute(calc, fo, fo, f"calc schedules the tasks of `{src(it)[:40]}` selected by " + ', '.join(facts.cond_texts(inside))[:120] +
+                                   " in a pass of their own: they take capacity ahead of tasks that stand before them in the WBS "
+                                   "(capacity must be handed out in WBS order)")
+        elif m and loop_var_is_arg:
             o.site(calc, fo, f"for {src(fo.target)} in {src(it)[:50]}")
         elif _wrapped(it) or match("$w.roots[::-1]", it):
             o.refute(calc, fo, fo.iter, f"roots are traversed through `{src(fo.iter)}`: not in WBS order")
@@ -129,3 +160,46 @@ def order(ctx, o, ps: PassShape, pt):
             o.site(ps.f, ch_loops[0], "dependencies are scheduled before the children")
         else:
             o.refute(ps.f, ch_loops[0], ch_loops[0], "children are scheduled before the task's dependencies")
+
+
+def search_from_release(ctx, o, S):
+    """every definition of the search's day cursor outside the stepping is a function of (resource, release date) only.
+    Capacity depends on the task (IResource.get_available_units(date, task)), so a per-resource hint 'days before X are full'
+    cannot be right for every task: a cursor raised to remembered state skips days that were never examined for this task."""
+    prog = ctx.prog
+    f = prog.func(S['search'])
+    fl = sched.flow_of(f)
+    usage_p, me = f.params[2], f.params[0]
+    dvars = set()
+    for n in walk_no_nested(f.node):
+        pr = sched.parse_resv(n, S['balance']) if isinstance(n, (ast.Call, ast.IfExp)) else None
+        if pr and isinstance(pr['d'], ast.Name):
+            dvars.add(pr['d'].id)
+    if not dvars:
+        o.undecided(f, f.node, 'search', "no ledger query on a day variable found in the search")
+        return
+    ex = Expander(prog, f, ctx.typer)
+    bad = 0
+
+    def state_reads(e):
+        out = []
+        called = {id(x.func) for x in ast.walk(e) if isinstance(x, ast.Call)}
+        for x in ast.walk(e):
+            if isinstance(x, ast.Attribute) and isinstance(x.value, ast.Name):
+                if x.value.id == usage_p and not (id(x) in called and x.attr == 'reserved'):
+                    out.append(x)
+                elif x.value.id == me and x.attr != S['balance'] and id(x) not in called:
+                    out.append(x)
+        return out
+    for dv in sorted(dvars):
+        for d in fl.defs_of(dv):
+            if d.kind != 'assign' or d.value is None:
+                continue
+            v = ex.expand(d.value, d.node, stop={dv})
+            reads = state_reads(v)
+            if reads:
+                bad += 1
+                o.refute(f, d.stmt, d.stmt, f"the search day `{dv}` is set from remembered state `{src(reads[0])}` (`{src(v)[:70]}`): days between the "
+                                            f"release date and that day are never examined for this task, so free capacity before it stays idle")
+    if not bad:
+        o.site(f, f.node, f"search day {', '.join(sorted(dvars))} is derived from the release date and the calendar only")
